@@ -1,11 +1,46 @@
 import Mamba.Model.DawgGob
-/-! Lemmas about `encodeUint64` / `decodeUint64` (C14). -/
+/-! Round trip of `encodeUint64With` / `decodeUint64With` for every consistent set of constants (C14).
+
+`VarintCfg.Consistent` lists what the round trip needs of the literals of the Go code: the byte-count arithmetic is
+rigid (64-bit values, leading-zero shift at least 3, 8 bits per byte, 8 value bytes, first value byte at position 1, full length 9, prefix written =
+prefix read + 8, big-endian shifts), the one-byte thresholds and the limits have slack (`encBelow ≤ decBelow ≤
+decPrefixBase + 1`, `decTooManyFrom ≥ 9`, `decBufSize ≥ 8`). The property file discharges it for the generated
+constants by `decide`. -/
 namespace Dawg
+
+/-- big-endian bytes of `x`, exactly `n` of them (the low `n` bytes) -/
+def beBytes : Nat → Nat → List Nat
+  | 0, _ => []
+  | n + 1, x => beBytes n (x / 256) ++ [x % 256]
+
+/-- big-endian value of a byte list -/
+def beValue (acc : Nat) : List Nat → Nat
+  | [] => acc
+  | b :: bs => beValue (acc * 256 + b) bs
+
+def VarintCfg.Consistent (c : VarintCfg) : Prop :=
+  c.found = true ∧ c.lzBits = 64 ∧ 3 ≤ c.lzShift ∧ c.encBufFull = 9 ∧ c.encLoopBound = 8 ∧ c.encDstOffset = 1 ∧
+  c.encShiftUnit = 8 ∧ c.encShiftTop = 7 ∧ c.decShift = 8 ∧
+  c.encPrefixSum = c.decPrefixBase + 8 ∧ c.encPrefixSum ≤ 255 ∧
+  1 ≤ c.encBelow ∧ c.encBelow ≤ c.decBelow ∧ c.decBelow ≤ c.decPrefixBase + 1 ∧
+  9 ≤ c.decTooManyFrom ∧ 8 ≤ c.decBufSize
+
+instance (c : VarintCfg) : Decidable c.Consistent := by unfold VarintCfg.Consistent; infer_instance
 
 theorem length_beBytes (n x : Nat) : (beBytes n x).length = n := by
   induction n generalizing x with
   | zero => rfl
   | succ n ih => simp [beBytes, ih]
+
+theorem beBytes_lt (n x : Nat) : ∀ b ∈ beBytes n x, b < 256 := by
+  induction n generalizing x with
+  | zero => intro b hb; cases hb
+  | succ n ih =>
+    intro b hb
+    simp only [beBytes, List.mem_append, List.mem_singleton] at hb
+    rcases hb with hb | rfl
+    · exact ih _ b hb
+    · exact Nat.mod_lt _ (by decide)
 
 theorem beValue_append (acc : Nat) (l : List Nat) (b : Nat) :
     beValue acc (l ++ [b]) = beValue acc l * 256 + b := by
@@ -24,60 +59,137 @@ theorem beValue_beBytes (n acc x : Nat) : beValue acc (beBytes n x) = acc * 256 
     rw [h, Nat.pow_succ]
     rw [Nat.add_mul, Nat.mul_assoc, Nat.add_assoc]
 
-theorem byteLen_le (f x : Nat) : byteLen f x ≤ f := by
-  induction f generalizing x with
-  | zero => simp [byteLen]
-  | succ f ih =>
-    rw [byteLen]
-    split
-    · omega
-    · have := ih (x / 256); omega
+/-- `x<<8 | b` is `x*256 + b` on bytes, as long as nothing is shifted out of 64 bits -/
+theorem beValueWith_eq (acc : Nat) (l : List Nat) (hl : ∀ b ∈ l, b < 256) (hfit : (acc + 1) * 256 ^ l.length ≤ 2 ^ 64) :
+    beValueWith 8 acc l = beValue acc l := by
+  induction l generalizing acc with
+  | nil => rfl
+  | cons b l ih =>
+    have hb : b < 2 ^ 8 := hl b List.mem_cons_self
+    have hb' : b < 256 := hl b List.mem_cons_self
+    simp only [beValueWith, beValue]
+    have hpow : 256 ^ (b :: l).length = 256 * 256 ^ l.length := by
+      rw [List.length_cons, Nat.pow_succ, Nat.mul_comm]
+    rw [hpow] at hfit
+    have hpos : 0 < 256 ^ l.length := Nat.pow_pos (by decide)
+    have h1 : (acc + 1) * 256 ≤ (acc + 1) * (256 * 256 ^ l.length) :=
+      Nat.mul_le_mul_left _ (Nat.le_mul_of_pos_right _ hpos)
+    have hlt : acc <<< 8 < 2 ^ 64 := by rw [Nat.shiftLeft_eq]; omega
+    rw [Nat.mod_eq_of_lt hlt, ← Nat.shiftLeft_add_eq_or_of_lt hb, Nat.shiftLeft_eq]
+    apply ih _ (fun b' hb' => hl b' (List.mem_cons_of_mem _ hb'))
+    have h2 : (acc * 2 ^ 8 + b + 1) * 256 ^ l.length ≤ ((acc + 1) * 256) * 256 ^ l.length :=
+      Nat.mul_le_mul_right _ (by omega)
+    rw [Nat.mul_assoc] at h2
+    omega
 
-theorem lt_pow_byteLen (f x : Nat) (h : x < 256 ^ f) : x < 256 ^ byteLen f x := by
-  induction f generalizing x with
-  | zero => simpa [byteLen] using h
-  | succ f ih =>
-    rw [byteLen]
-    split
-    · next h0 => subst h0; simp
-    · have h1 : x / 256 < 256 ^ f := by
-        rw [Nat.div_lt_iff_lt_mul (by decide)]
-        rwa [Nat.pow_succ] at h
-      have := ih (x / 256) h1
-      rw [Nat.pow_succ]
-      omega
+/-- the copy loop writes the big-endian bytes -/
+theorem range_map_shift (n x : Nat) :
+    (List.range n).map (fun i => (x >>> (8 * (n - 1 - i))) % 256) = beBytes n x := by
+  induction n generalizing x with
+  | zero => rfl
+  | succ n ih =>
+    rw [List.range_succ, List.map_append, beBytes, ← ih (x / 256)]
+    congr 1
+    · apply List.map_congr_left
+      intro i hi
+      rw [List.mem_range] at hi
+      have e : 8 * (n + 1 - 1 - i) = 8 + 8 * (n - 1 - i) := by omega
+      rw [e, Nat.shiftRight_eq_div_pow, Nat.shiftRight_eq_div_pow, Nat.pow_add, Nat.div_div_eq_div_mul]
+    · simp
 
-theorem byteLen_pos (f x : Nat) (hf : 0 < f) (hx : 0 < x) : 0 < byteLen f x := by
-  cases f with
-  | zero => omega
-  | succ f => rw [byteLen]; split <;> omega
-
-/-- decoding what `encodeUint64` wrote gives the value back and leaves the rest of the input -/
-theorem decodeUint64_encodeUint64_append (x : Nat) (hx : x < 2 ^ 64) (rest : List Nat) :
-    decodeUint64 (encodeUint64 x ++ rest) = some (x, rest) := by
-  unfold encodeUint64
-  split
-  · next h => simp [decodeUint64, h]
-  · next h =>
-    have hn8 : byteLen 8 x ≤ 8 := byteLen_le 8 x
-    have hpos : 0 < byteLen 8 x := byteLen_pos 8 x (by decide) (by omega)
-    have hlt : x < 256 ^ byteLen 8 x := lt_pow_byteLen 8 x (by simpa using hx)
-    simp only [List.cons_append, decodeUint64]
-    have h1 : ¬ (128 + byteLen 8 x ≤ 127) := by omega
-    have h2 : 128 + byteLen 8 x - 128 = byteLen 8 x := by omega
-    simp only [h1, if_false, h2]
-    have h3 : ¬ (byteLen 8 x > 8) := by omega
-    have h4 : ¬ ((beBytes (byteLen 8 x) x ++ rest).length < byteLen 8 x) := by
-      simp [length_beBytes]
-    simp only [h3, h4, if_false]
-    have h5 : (beBytes (byteLen 8 x) x ++ rest).take (byteLen 8 x) = beBytes (byteLen 8 x) x := by
+/-- decoding what `encodeUint64With` wrote gives the value back and leaves the rest of the input, for every consistent
+set of constants and every 64-bit value -/
+theorem decode_encode_with (c : VarintCfg) (hc : c.Consistent) (x : Nat) (hx : x < 2 ^ 64) (rest : List Nat) :
+    decodeUint64With c (encodeUint64With c x ++ rest) = .ok (x, rest) := by
+  obtain ⟨_, hlzb, hlzs, hfull, hloop, hoff, hunit, htop, hdsh, hsum, hsum255, hE1, hED, hDP, hTM, hbuf⟩ := hc
+  unfold encodeUint64With
+  by_cases hsmall : x < c.encBelow
+  · rw [if_pos hsmall]
+    simp only [List.cons_append, List.nil_append, decodeUint64With]
+    rw [if_pos (by omega)]
+  · rw [if_neg hsmall]
+    dsimp only
+    have hx0 : x ≠ 0 := by omega
+    have hlog : x.log2 < 64 := (Nat.log2_lt hx0).2 hx
+    -- number of leading zero bytes and of value bytes
+    have hzb : lz c.lzBits x >>> c.lzShift ≤ (63 - x.log2) / 8 := by
+      rw [hlzb, Nat.shiftRight_eq_div_pow]
+      simp only [lz, hx0, if_false]
+      have : 64 - (x.log2 + 1) = 63 - x.log2 := by omega
+      rw [this]
+      exact Nat.div_le_div_left (by
+        have : 2 ^ 3 ≤ 2 ^ c.lzShift := Nat.pow_le_pow_right (by decide) hlzs
+        simpa using this) (by decide)
+    generalize hzdef : lz c.lzBits x >>> c.lzShift = zb at hzb
+    have hzb7 : zb ≤ 7 := by omega
+    have hbits : x.log2 + 1 ≤ 8 * (8 - zb) := by omega
+    have hlt : x < 256 ^ (8 - zb) := by
+      have h1 : x < 2 ^ (x.log2 + 1) := Nat.lt_log2_self
+      have h2 : 2 ^ (x.log2 + 1) ≤ 2 ^ (8 * (8 - zb)) := Nat.pow_le_pow_right (by decide) hbits
+      rw [Nat.pow_mul] at h2
+      exact Nat.lt_of_lt_of_le h1 h2
+    -- shape of the encoding
+    have hbody : (List.range (c.encLoopBound - zb)).map
+        (fun i => (x >>> (c.encShiftUnit * (c.encShiftTop - (i + zb)))) % 256) = beBytes (8 - zb) x := by
+      rw [hloop, hunit, htop, ← range_map_shift]
+      apply List.map_congr_left
+      intro i hi
+      rw [List.mem_range] at hi
+      have : 7 - (i + zb) = 8 - zb - 1 - i := by omega
+      rw [this]
+    have hfirst : (c.encPrefixSum - zb) % 256 = c.decPrefixBase + (8 - zb) := by
+      rw [Nat.mod_eq_of_lt (by omega)]; omega
+    rw [hbody, hfirst, hoff, hfull]
+    have htake : (((c.decPrefixBase + (8 - zb)) :: List.replicate (1 - 1) 0 ++ beBytes (8 - zb) x) ++
+        List.replicate 9 0).take (9 - zb) = (c.decPrefixBase + (8 - zb)) :: beBytes (8 - zb) x := by
+      simp only [Nat.sub_self, List.replicate_zero, List.nil_append, List.cons_append]
+      have e : 9 - zb = (8 - zb) + 1 := by omega
+      rw [e, List.take_succ_cons]
       rw [List.take_append_of_le_length (by simp [length_beBytes])]
       rw [List.take_of_length_le (by simp [length_beBytes])]
-    have h6 : (beBytes (byteLen 8 x) x ++ rest).drop (byteLen 8 x) = rest := by
+    rw [htake]
+    simp only [List.cons_append, decodeUint64With]
+    rw [if_neg (by omega), if_neg (by omega)]
+    have hn : c.decPrefixBase + (8 - zb) - c.decPrefixBase = 8 - zb := by omega
+    simp only [hn]
+    rw [if_neg (by omega), if_neg (by omega), if_neg (by simp [length_beBytes])]
+    have h5 : (beBytes (8 - zb) x ++ rest).take (8 - zb) = beBytes (8 - zb) x := by
+      rw [List.take_append_of_le_length (by simp [length_beBytes])]
+      rw [List.take_of_length_le (by simp [length_beBytes])]
+    have h6 : (beBytes (8 - zb) x ++ rest).drop (8 - zb) = rest := by
       rw [List.drop_append_of_le_length (by simp [length_beBytes])]
       rw [List.drop_of_length_le (by simp [length_beBytes])]
       rfl
-    rw [h5, h6, beValue_beBytes, Nat.mod_eq_of_lt hlt]
+    have hfit : (0 + 1) * 256 ^ (beBytes (8 - zb) x).length ≤ 2 ^ 64 := by
+      rw [length_beBytes, Nat.zero_add, Nat.one_mul]
+      have : 256 ^ (8 - zb) ≤ 256 ^ 8 := Nat.pow_le_pow_right (by decide) (by omega)
+      exact Nat.le_trans this (by decide)
+    rw [h5, h6, hdsh, beValueWith_eq _ _ (beBytes_lt _ _) hfit, beValue_beBytes, Nat.mod_eq_of_lt hlt]
     simp
+
+/-- the constants of the Go source as it is now are consistent (re-checked on every run against the regenerated
+`Gen/DawgConsts.lean`) -/
+theorem genCfg_consistent : genCfg.Consistent := by decide
+
+theorem decodeUint64_encodeUint64_append (x : Nat) (hx : x < 2 ^ 64) (rest : List Nat) :
+    decodeUint64 (encodeUint64 x ++ rest) = .ok (x, rest) :=
+  decode_encode_with genCfg genCfg_consistent x hx rest
+
+theorem encodeUint64_ne_nil (x : Nat) (hx : x < 2 ^ 64) : encodeUint64 x ≠ [] := by
+  intro h
+  have := decodeUint64_encodeUint64_append x hx []
+  rw [h] at this
+  simp [decodeUint64, decodeUint64With] at this
+
+theorem length_le_flatMap_encode (L : List Nat) (hL : ∀ x ∈ L, x < 2 ^ 64) (rest : List Nat) :
+    L.length ≤ (L.flatMap encodeUint64 ++ rest).length := by
+  induction L with
+  | nil => simp
+  | cons a L ih =>
+    have h1 := encodeUint64_ne_nil a (hL a List.mem_cons_self)
+    have h2 : 0 < (encodeUint64 a).length := List.length_pos_iff.2 h1
+    have h3 := ih (fun x hx => hL x (List.mem_cons_of_mem _ hx))
+    simp only [List.flatMap_cons, List.length_append, List.length_cons] at h3 ⊢
+    omega
 
 end Dawg
